@@ -117,7 +117,7 @@ func checkC08(c *Ctx) {
 			continue
 		}
 		var addCall, deltaCall *ssa.Call
-		var stores []*ssa.Store
+		var stores []ssa.Instruction
 		eachInstr(fn, func(_ *ssa.BasicBlock, _ int, in ssa.Instruction) {
 			if call, ok := in.(*ssa.Call); ok {
 				if g := calleeFn(call.Common()); g != nil {
@@ -132,6 +132,20 @@ func checkC08(c *Ctx) {
 			if st, ok := in.(*ssa.Store); ok {
 				if f, _ := fieldAddr(st.Addr); f != nil && f.Name() == hn.field && strings.HasSuffix(ownerOf(p, f), "serviceWrapper") {
 					stores = append(stores, st)
+				}
+			}
+			// the mutation may live in a helper (a method of the wrapper): the call stands for its stores
+			if call, ok := in.(*ssa.Call); ok {
+				if g := calleeFn(call.Common()); g != nil && isModFn(g) && g.Blocks != nil && g.Name() != hn.addEmit && g.Name() != hn.deltaEmit {
+					for _, hf := range append([]*ssa.Function{g}, staticCalleesDeep(g, 1)...) {
+						eachInstr(hf, func(_ *ssa.BasicBlock, _ int, y ssa.Instruction) {
+							if st2, ok := y.(*ssa.Store); ok {
+								if f, _ := fieldAddr(st2.Addr); f != nil && f.Name() == hn.field && strings.HasSuffix(ownerOf(p, f), "serviceWrapper") {
+									stores = append(stores, call)
+								}
+							}
+						})
+					}
 				}
 			}
 		})
@@ -201,14 +215,38 @@ func checkC08(c *Ctx) {
 				removedP = prm
 			}
 		}
-		loopOver := func(prm *ssa.Parameter) *ssa.BasicBlock {
+		// where a list is applied to the stored slice: the loop ranging over it, or the call that hands it to a helper
+		// which ranges over it
+		loopOver := func(prm *ssa.Parameter) ssa.Instruction {
 			for _, h := range loopHeaders(st) {
 				ls, _ := findCountedLoop(h)
 				if ls != nil && isLenOf(ls.bound, prm) {
-					return h
+					return h.Instrs[0]
 				}
 			}
-			return nil
+			var at ssa.Instruction
+			eachInstr(st, func(_ *ssa.BasicBlock, _ int, in ssa.Instruction) {
+				call, ok := in.(*ssa.Call)
+				if !ok || at != nil {
+					return
+				}
+				g := calleeFn(call.Common())
+				if g == nil || !isModFn(g) || g.Blocks == nil {
+					return
+				}
+				for i, a := range call.Call.Args {
+					if a != ssa.Value(prm) || i >= len(g.Params) {
+						continue
+					}
+					for _, h := range loopHeaders(g) {
+						ls, _ := findCountedLoop(h)
+						if ls != nil && isLenOf(ls.bound, g.Params[i]) {
+							at = in
+						}
+					}
+				}
+			})
+			return at
 		}
 		if addedP == nil || removedP == nil {
 			c.Undecided("R3", "store parameters", st.Pos(), "the endpoint hook has no parameters named added/removed")
@@ -221,9 +259,9 @@ func checkC08(c *Ctx) {
 		}
 		storeOrder := ""
 		switch {
-		case hr.Dominates(ha):
+		case instrDominates(hr, ha):
 			storeOrder = "remove-then-add"
-		case ha.Dominates(hr):
+		case instrDominates(ha, hr):
 			storeOrder = "add-then-remove"
 		default:
 			c.Undecided("R3", "store order", st.Pos(), "the two loops are not sequential")
